@@ -31,6 +31,12 @@ type Font struct {
 	buf  sfnt.Buffer
 	rev  map[uint16][]rune
 	outl map[int]string
+
+	exactTried bool
+	exactErr   error
+	tt         *TT
+	cff        *CFF
+	exact      map[int]string
 }
 
 // Open parses a font program. Programs that x/image rejects because of tables that have
@@ -127,7 +133,7 @@ func (ft *Font) Outline(gid int) ([]Seg, error) {
 			return nil, fmt.Errorf("unknown segment op %d", s.Op)
 		}
 		for k := 0; k < n; k++ {
-			o.P[k] = [2]float64{float64(s.Args[k].X), -float64(s.Args[k].Y)}
+			o.P[k] = [2]float64{float64(s.Args[k].X), 0 - float64(s.Args[k].Y)}
 		}
 		out = append(out, o)
 	}
@@ -203,4 +209,44 @@ func (ft *Font) RunesOf(gid int) []rune {
 		}
 	}
 	return ft.rev[uint16(gid)]
+}
+
+// ExactOutline reads the outline with the exact readers of this package (glyf.go, cff.go):
+// no truncation of implied TrueType points, no rounding of 16.16 charstring operands.
+func (ft *Font) ExactOutline(gid int) ([]Seg, error) {
+	if !ft.exactTried {
+		ft.exactTried = true
+		if ft.IsCFF {
+			ft.cff, ft.exactErr = OpenCFF(ft.Dir.Tables["CFF "])
+		} else {
+			ft.tt, ft.exactErr = OpenTT(ft.Dir)
+		}
+	}
+	if ft.exactErr != nil {
+		return nil, ft.exactErr
+	}
+	if ft.cff != nil {
+		segs, _, err := ft.cff.Outline(gid)
+		return segs, err
+	}
+	return ft.tt.Outline(gid)
+}
+
+// ExactKey is FmtOutline(ExactOutline(gid)), cached; errors are rendered into the key.
+func (ft *Font) ExactKey(gid int) string {
+	if ft.exact == nil {
+		ft.exact = map[int]string{}
+	}
+	if k, ok := ft.exact[gid]; ok {
+		return k
+	}
+	segs, err := ft.ExactOutline(gid)
+	k := ""
+	if err != nil {
+		k = "error: " + err.Error()
+	} else {
+		k = FmtOutline(segs)
+	}
+	ft.exact[gid] = k
+	return k
 }
